@@ -154,7 +154,16 @@ def case_strategy(depth):
                 lambda t: {"rel": "perm", "shape": u, "value": t[0], "channel": t[1]})
             return st.one_of(direct, direct, perm(u))
 
-        return st.one_of(st.just(sh), small, small).flatmap(lambda base: G.mutations_of(base).flatmap(lambda sib: cases(base, sib)))
+        generic = st.one_of(st.just(sh), small, small).flatmap(lambda base: G.mutations_of(base).flatmap(lambda sib: cases(base, sib)))
+        # curated pairs of keyed members: the first converts one entry (int -> float, name -> Enum, list -> tuple) and fails on another,
+        # the second needs the entry as it was given
+        td = lambda a, b: ["td", "T", [["fa", a, False, None], ["fb", b, False, None]]]  # noqa: E731
+        pairs = [(td(["float"], ["int"]), td(["int"], ["str"])), (td(["enum", "Color"], ["int"]), td(["str"], ["str"])),
+                 (td(["tuplevar", ["int"]], ["int"]), td(["list", ["int"]], ["str"])), (td(["float"], ["bool"]), td(["posint"], ["float"])),
+                 (["list", td(["float"], ["int"])], ["list", td(["int"], ["str"])]), (["dict", td(["float"], ["int"])], ["dict", td(["int"], ["str"])]),
+                 (["tuple", ["float"], ["int"]], ["tuple", ["int"], ["str"]]), (["dict", ["float"]], ["dict", ["union", ["int"], ["str"]]])]
+        curated = st.sampled_from(pairs).flatmap(lambda pr: st.booleans().flatmap(lambda flip: cases(*(pr[::-1] if flip else pr))))
+        return st.one_of(generic, generic, generic, curated)
 
     def dflt(sh):
         """a declared default that is ``==`` the given value but of another type (1 / 1.0 / True, [1] / [1.0]) must not change
